@@ -557,3 +557,76 @@ Proof.
     + split; assumption.
     + pose proof (stream_length ps). rewrite !app_length. unfold hdr. cbn [length]. lia.
 Qed.
+
+(* ---------------------------------------------------------------- TCP framing *)
+Lemma next_short (s : list Z) n : len s <= n -> 0 <= n -> next s n = (s, []).
+Proof.
+  intros H Hn. unfold next, len in *.
+  rewrite firstn_all2 by lia. rewrite skipn_all2 by lia. reflexivity.
+Qed.
+
+Lemma parse_header_short h : len h <> HeadLength -> parse_header h = Err EPktHeader.
+Proof.
+  intro H. unfold parse_header. destruct (Z.eqb_spec (len h) HeadLength); [contradiction | reflexivity].
+Qed.
+
+Lemma frames_tail fuel tail : incomplete tail -> (0 < fuel)%nat ->
+  frames fuel tail = ([], tail_end tail).
+Proof.
+  intros Ht Hf. destruct fuel as [|f]; [lia|]. cbn [frames]. unfold tail_end.
+  pose proof (len_nonneg tail) as Lt.
+  destruct Ht as [Hs|[t [n [partial [Ht [Hn [-> Hl]]]]]]].
+  - rewrite next_short by (unfold HeadLength in *; lia).
+    destruct (Z.eqb_spec (len tail) 0); [reflexivity|].
+    rewrite parse_header_short by lia.
+    destruct (Z.ltb_spec (len tail) HeadLength); [reflexivity | lia].
+  - rewrite next_hdr. rewrite len_hdr. change (HeadLength =? 0) with false. cbv iota.
+    rewrite parse_header_hdr by assumption. cbn [fst snd].
+    pose proof (len_nonneg partial) as Lp.
+    rewrite next_short by lia.
+    destruct (Z.ltb_spec (len partial) n); [|lia].
+    rewrite len_app, len_hdr. unfold HeadLength.
+    destruct (Z.eqb_spec (4 + len partial) 0); [lia|].
+    destruct (Z.ltb_spec (4 + len partial) 4); [lia | reflexivity].
+Qed.
+
+Lemma frames_stream ps : forall fuel tail,
+  Forall valid_pkt ps -> incomplete tail -> (length ps < fuel)%nat ->
+  frames fuel (stream ps ++ tail) = (map enc_bytes ps, tail_end tail).
+Proof.
+  induction ps as [|[t data] ps IH]; intros fuel tail Hps Ht Hf.
+  - cbn [stream map concat app]. apply frames_tail; [exact Ht | lia].
+  - inversion Hps as [|x y Hp Hps']; subst. destruct Hp as [Hp1 Hp2]. cbn [fst snd] in Hp1, Hp2.
+    destruct fuel as [|f]; [lia|]. cbn [frames]. rewrite stream_cons.
+    rewrite next_hdr, len_hdr. change (HeadLength =? 0) with false. cbv iota.
+    pose proof (len_nonneg data) as Ld.
+    rewrite parse_header_hdr by (assumption || lia). cbn [fst snd].
+    rewrite next_app. destruct (Z.ltb_spec (len data) (len data)); [lia|].
+    rewrite IH; [|assumption|assumption|cbn [length] in Hf; lia].
+    cbn [map]. unfold enc_bytes at 2. cbn [fst snd]. reflexivity.
+Qed.
+
+Lemma read_frames_stream ps tail : Forall valid_pkt ps -> incomplete tail ->
+  read_frames (stream ps ++ tail) = (map enc_bytes ps, tail_end tail).
+Proof.
+  intros Hps Ht. unfold read_frames. apply frames_stream; try assumption.
+  pose proof (stream_length ps). rewrite app_length. lia.
+Qed.
+
+(* no input panics the framing or exhausts the fuel *)
+Lemma frames_total fuel : forall s, (length s < fuel)%nat -> snd (frames fuel s) <> FFuel.
+Proof.
+  induction fuel as [|f IH]; intros s Hf; [lia|]. cbn [frames]. unfold next.
+  destruct (len (firstn (Z.to_nat HeadLength) s) =? 0) eqn:E0; [discriminate|].
+  pose proof (parse_header_total (firstn (Z.to_nat HeadLength) s)) as NP.
+  destruct (parse_header _) as [[size ty]| |] eqn:Eh; [|discriminate|contradiction].
+  destruct (len (firstn (Z.to_nat size) (skipn (Z.to_nat HeadLength) s)) <? size); [discriminate|].
+  destruct (frames f (skipn (Z.to_nat size) (skipn (Z.to_nat HeadLength) s))) as [ms e] eqn:Ef.
+  cbn [snd]. specialize (IH (skipn (Z.to_nat size) (skipn (Z.to_nat HeadLength) s))).
+  rewrite Ef in IH. cbn [snd] in IH. apply IH.
+  (* a parsed header means 4 bytes were there *)
+  assert (L4 : len (firstn (Z.to_nat HeadLength) s) = HeadLength).
+  { unfold parse_header in Eh. destruct (Z.eqb_spec (len (firstn (Z.to_nat HeadLength) s)) HeadLength); [assumption|discriminate]. }
+  unfold len, HeadLength in L4. rewrite firstn_length in L4. rewrite !skipn_length.
+  change (Z.to_nat HeadLength) with 4%nat. lia.
+Qed.
